@@ -39,7 +39,7 @@ def oracle_known(info):
 
 
 def run(ctx):
-    plan = [("mc/SymRes_c02_quick.cfg", 900, 6 if ctx.quick else 1), ("mc/SymRes_c02_dup.cfg", 600, 2 if ctx.quick else 1)]
+    plan = [("mc/SymRes_c02_quick.cfg", 900, 16 if ctx.quick else 1), ("mc/SymRes_c02_dup.cfg", 600, 4 if ctx.quick else 1)]
     if not ctx.quick:
         plan.append(("mc/SymRes_c02_triple.cfg", 2400, 1))
     cov = symres.run_plan(ctx, PROP, plan, ASPECTS, "both", oracle_known, skip_load_divergent=OWN)
